@@ -7,7 +7,9 @@
    small universe - in particular every "delete something a tag reaches" situation. *)
 EXTENDS OciRegistryMC, Json
 
-CONSTANT CoverKinds      \* operation names to cover ({} = all)
+CONSTANTS CoverKinds,    \* operation names to explore with and to cover ({} = all)
+          PrintKinds,    \* of these, the operations whose transitions are printed ({} = all of CoverKinds)
+          PrintMinMans   \* if > 0: print only transitions out of states where some repository holds at least this many manifests and a tag
 VARIABLE h
 
 CInit == Init /\ h = <<>>
@@ -18,7 +20,8 @@ CoverOps == {o \in (IF CoverKinds = {} THEN Ops ELSE Ops \cup WireOpSet) : (Cove
 CNext == \E o \in CoverOps :
            /\ Apply(o)
            /\ h' = Append(h, o)
-           /\ PrintT(<<"MBT", ToJson([imm |-> imm, ops |-> h'])>>)
+           /\ IF (PrintKinds = {} \/ o.op \in PrintKinds) /\ (PrintMinMans = 0 \/ \E r \in Repos : Cardinality(DOMAIN mans[r]) >= PrintMinMans /\ DOMAIN tags[r] # {})
+                THEN PrintT(<<"MBT", ToJson([imm |-> imm, ops |-> h'])>>) ELSE TRUE
 CSpec == CInit /\ [][CNext]_<<vars, h>>
 CoverView == state
 =========================================================================
